@@ -33,56 +33,80 @@
 #include <string.h>
 #include <libgen.h>
 
-// Insert the content of "etc_file.file_entry" into "fe" if there is no
-// group specified
+// Is there an entry in the given group?
+static bool has_group(const econf_file *kf, const char *group) {
+  for (size_t i = 0; i < kf->length; i++)
+    if (!strcmp(kf->file_entry[i].group, group))
+      return true;
+  return false;
+}
+
+// Index of the first entry with the given group and key, or kf->length
+static size_t first_entry(const econf_file *kf, const char *group, const char *key) {
+  for (size_t i = 0; i < kf->length; i++)
+    if (!strcmp(kf->file_entry[i].group, group) &&
+	!strcmp(kf->file_entry[i].key, key))
+      return i;
+  return kf->length;
+}
+
+// Is entry num the first one with its group and key? (Only the first
+// definition of a key is visible for the get functions.)
+static bool first_definition(const econf_file *kf, size_t num) {
+  return first_entry(kf, kf->file_entry[num].group, kf->file_entry[num].key) == num;
+}
+
+// Insert the group-less entries of "etc_file.file_entry" into "fe" if
+// usr_file has no group-less entries which they could be appended to.
 size_t insert_nogroup(econf_file *dest_kf, struct file_entry **fe,
-		      econf_file *ef) {
-  size_t etc_start = 0;
-  if (ef) {
-    while (etc_start < ef->length &&
-	   !strcmp(ef->file_entry[etc_start].group, KEY_FILE_NULL_VALUE)) {
-      (*fe)[etc_start] = cpy_file_entry(dest_kf, ef->file_entry[etc_start]);
-      etc_start++;
+		      econf_file *uf, econf_file *ef) {
+  size_t added_keys = 0;
+  if (uf && ef && !has_group(uf, KEY_FILE_NULL_VALUE)) {
+    for (size_t i = 0; i < ef->length; i++) {
+      if (!strcmp(ef->file_entry[i].group, KEY_FILE_NULL_VALUE) &&
+	  first_definition(ef, i))
+	(*fe)[added_keys++] = cpy_file_entry(dest_kf, ef->file_entry[i]);
     }
   }
-  return etc_start;
+  return added_keys;
 }
 
 // Merge contents from existing usr_file groups
 // uf: usr_file, ef: etc_file
 size_t merge_existing_groups(econf_file *dest_kf, struct file_entry **fe, econf_file *uf,
 			     econf_file *ef, const size_t etc_start) {
-  bool new_key;
-  size_t merge_length = etc_start, tmp = etc_start, added_keys = etc_start;
+  size_t merge_length = etc_start;
   if (uf && ef) {
-    for (size_t i = 0; i <= uf->length; i++) {
-      // Check if the group has changed in the last iteration
-      if (i == uf->length ||
-	  (i && strcmp(uf->file_entry[i].group, uf->file_entry[i - 1].group))) {
-	for (size_t j = etc_start; j < ef->length; j++) {
-	  // Check for matching groups
-	  if (!strcmp(uf->file_entry[i - 1].group, ef->file_entry[j].group)) {
-	    new_key = true;
-	    for (size_t k = merge_length; k < i + tmp; k++) {
-	      // If an existing key is found in ef take the value from ef
-	      if (!strcmp((*fe)[k].key, ef->file_entry[j].key)) {
-		free((*fe)[k].value);
-		(*fe)[k].value = ef->file_entry[j].value ? strdup(ef->file_entry[j].value) : strdup("");
-		new_key = false;
-		break;
-	      }
-	    }
-	    // If a new key is found for an existing group append it to the group
-	    if (new_key)
-	      (*fe)[i + added_keys++] = cpy_file_entry(dest_kf, ef->file_entry[j]);
-	  }
-	}
-	merge_length = i + added_keys;
-	// Temporary value to reduce amount of iterations in inner for loop
-	tmp = added_keys;
+    for (size_t i = 0; i < uf->length; i++) {
+      const char *group = uf->file_entry[i].group;
+      bool last_of_group = true;
+
+      // Take the entry of uf. If the key is defined in ef too, take the value from ef
+      (*fe)[merge_length] = cpy_file_entry(dest_kf, uf->file_entry[i]);
+      size_t j = first_entry(ef, group, uf->file_entry[i].key);
+      if (j < ef->length) {
+	free((*fe)[merge_length].value);
+	(*fe)[merge_length].value = ef->file_entry[j].value ?
+	  strdup(ef->file_entry[j].value) : strdup("");
       }
-      if (i != uf->length)
-	(*fe)[i + added_keys] = cpy_file_entry(dest_kf, uf->file_entry[i]);
+      merge_length++;
+
+      // After the last entry of a group append the keys of this group
+      // which are defined in ef only
+      for (size_t k = i + 1; k < uf->length; k++) {
+	if (!strcmp(uf->file_entry[k].group, group)) {
+	  last_of_group = false;
+	  break;
+	}
+      }
+      if (!last_of_group)
+	continue;
+      for (j = 0; j < ef->length; j++) {
+	if (!strcmp(ef->file_entry[j].group, group) &&
+	    first_definition(ef, j) &&
+	    first_entry(uf, group, ef->file_entry[j].key) == uf->length)
+	  (*fe)[merge_length++] = cpy_file_entry(dest_kf, ef->file_entry[j]);
+      }
     }
   }
   return merge_length;
@@ -93,19 +117,11 @@ size_t add_new_groups(econf_file *dest_kf, struct file_entry **fe,
 		      econf_file *uf, econf_file *ef,
 		      const size_t merge_length) {
   size_t added_keys = merge_length;
-  bool new_key;
   if (uf && ef) {
     for (size_t i = 0; i < ef->length; i++) {
       if (!strcmp(ef->file_entry[i].group, KEY_FILE_NULL_VALUE))
 	continue;
-      new_key = true;
-      for (size_t j = 0; j < uf->length; j++) {
-	if (!strcmp(uf->file_entry[j].group, ef->file_entry[i].group)) {
-	  new_key = false;
-	  break;
-	}
-      }
-      if (new_key)
+      if (!has_group(uf, ef->file_entry[i].group) && first_definition(ef, i))
 	(*fe)[added_keys++] = cpy_file_entry(dest_kf, ef->file_entry[i]);
     }
     if (added_keys > 0)
